@@ -701,14 +701,18 @@ private:
    void read_stripped_data( const View& dst_view
                           , int         plane     )
    {
-      using is_view_bit_aligned_t = typename is_bit_aligned<typename View::value_type>::type;
-
       //using row_buffer_helper_t =detail::row_buffer_helper_view<View>;
       using row_buffer_helper_t = Buffer;
       using it_t = typename row_buffer_helper_t::iterator_t;
 
-      std::size_t size_to_allocate = buffer_size< typename View::value_type >( dst_view.width()
-                                                                             , is_view_bit_aligned_t() );
+      // The buffer takes a whole scanline of the file and is addressed as pixels of the buffer's type,
+      // which is the file's pixel type and not the destination's when the pixels are converted: size
+      // it in elements of the buffer ( bytes for bit aligned pixels ), not of the destination view.
+      std::size_t const element_size = sizeof( typename row_buffer_helper_t::element_t );
+      std::size_t const size_to_allocate = (std::max)( static_cast< std::size_t >( dst_view.width() )
+                                                     , ( static_cast< std::size_t >( this->_io_dev.get_scanline_size() )
+                                                       + element_size - 1 ) / element_size
+                                                     );
       row_buffer_helper_t row_buffer_helper( size_to_allocate, true );
 
       // libtiff writes a whole scanline, whose size follows from the tags in the file; a file whose
